@@ -96,17 +96,17 @@ Definition bpos (text : str) (i : nat) : nat := length (utf8 (firstn i text)).
 
 (* ---- re-match and token construction ---- *)
 Section Rematch.
-  (* extractor.compiled_regex.match(sub): span of group 1 inside sub, or None *)
-  Variable rematch : nat -> str -> option (nat * nat).
+  (* extractor.compiled_regex.match(text, s, e) (as repaired: matched in place, so that anchors and
+     boundaries see the real context): absolute span of group 1, or None *)
+  Variable rematch : nat -> str -> nat -> nat -> option (nat * nat).
 
   Record htok := { h_idx : nat; h_start : nat; h_end : nat; h_data : str }.
 
   Definition extract (text : str) (hits : list hit) : list htok :=
     flat_map (fun x =>
                 let '(idx, (s, e)) := x in
-                let sub := slice text s e in
-                match rematch idx sub with
-                | Some (a, b) => [{| h_idx := idx; h_start := s + a; h_end := s + b; h_data := slice sub a b |}]
+                match rematch idx text s e with
+                | Some (a, b) => [{| h_idx := idx; h_start := a; h_end := b; h_data := slice text a b |}]
                 | None => []          (* as repaired: a hit Python's pattern rejects is skipped *)
                 end) (translate text hits).
 End Rematch.
